@@ -642,3 +642,41 @@ func distinctKeys(t *T, ks []V) []V {
 	}
 	return out
 }
+
+// NestedAbsent reports whether v contains a non-nil pointer whose target is absent
+// (a nil pointer or an invalid null.X): two levels of presence, which the encoding
+// cannot express (C01's ledgered finding).
+func NestedAbsent(t *T, v V) bool {
+	switch t.K {
+	case KPtr:
+		if v.Nil {
+			return false
+		}
+		if t.Elem.K == KPtr && v.E[0].Nil {
+			return true
+		}
+		if isNull(t.Elem.K) && v.E[0].Nil {
+			return true
+		}
+		return NestedAbsent(t.Elem, v.E[0])
+	case KSlice:
+		for _, e := range v.E {
+			if NestedAbsent(t.Elem, e) {
+				return true
+			}
+		}
+	case KMap:
+		for i := 0; i+1 < len(v.E); i += 2 {
+			if NestedAbsent(t.Key, v.E[i]) || NestedAbsent(t.Elem, v.E[i+1]) {
+				return true
+			}
+		}
+	case KStruct:
+		for i, f := range t.Fields {
+			if NestedAbsent(f.T, v.E[i]) {
+				return true
+			}
+		}
+	}
+	return false
+}
